@@ -640,7 +640,7 @@ def run(model, rep, tier):
     # ---------------------------------------------------------------- R-05.5
     check_validators(model, rep, "R-05.5")
     rep.assume("constructor validators (Rdata._as_*) are the only way fields are set (C07 R-07.2); float fields are outside the interval evaluator")
-    rep.share(model, "C01", {"R-01.7"}, "R-05.7", "every embedded name of a record is rendered through Name.to_styled_text with the style's origin")
+    rep.share(model, "C01", {"R-01.5", "R-01.7"}, "R-05.7", "every embedded name of a record is rendered through Name.to_styled_text with the style's origin")
     # ---------------------------------------------------------------- R-05.8
     multibit = {}
     for ci in model.classes.values():
